@@ -5,12 +5,13 @@ What is regenerated on every run (from the AST of pydra/utils/hash.py and pydra/
     the `b"..."` constants (`b"dict:{"`, `b"="`, `b","`, `b"function:("`, the `type:(`/`origin:(`/`fields:(` family, the
     `_splitter=`/`_xor=` family of `bytes_repr_task`), the recursion placeholder `b"\\x00"` of `hash_single`, the
     `struct.pack` formats, and blake2b's `digest_size` / `person`.  The Lean model (`Hash/Model.lean`) *uses these
-    definitions*, so a changed prefix changes the model, and the `decide`-closed lemma that the tag heads are pairwise
-    distinct and colon-terminated (`Hash/LemmasEnc.lean: heads_ok`) is re-checked against the source;
+    definitions*, so a changed prefix changes the model, and the `decide`-closed lemmas about the tag table (`heads_prefix_free`,
+    `len_seps_ok` in Hash/LemmasEnc.lean; `words_ok` in Hash/LemmasRel.lean; `checksum_sep_ok` in Props/C06.lean) are re-checked
+    against the source;
   * a digest of the normalised source (`ast.unparse`, docstrings removed) of every modelled function, compared by `decide`
     with the digests the hand-written model was written for (`Hash/Sources.lean`), so that any change of the
     algorithm (e.g. `sorted(obj)` dropped from `bytes_repr_set`, a field skipped in `_compute_hashes`) re-opens
-    the proof obligation `HashLits_sources_ok` even when no literal changed.
+    the proof obligation `Sources.sources_ok` even when no literal changed.
 An extractor that does not find the shape it expects raises (-> "tie broken").
 """
 
